@@ -497,16 +497,16 @@ def hyphenated(cfg):
     import textwrap
 
     w = textwrap.TextWrapper()
-    words = [cfg["app"]]
+    words = [cfg["app"], "<c1>" + cfg["ver"] + "</c1>"] + cfg["display"] + [y for par in cfg["help"] for y in par]
     for o in cfg["gopts"]:
-        words += ["[--" + o["long"] + "]"] + o["desc"]
+        words += ["[--" + o["long"] + "]", "[--" + o["long"] + "\u00a0[<...>]]"] + o["desc"] + o["dflt"]
     for c in cfg["cmds"]:
         for x in [c] + c["subs"]:
             words += [x["name"]] + x["aliases"] + x["desc"] + [y for par in x["help"] for y in par]
             for a in x["args"]:
-                words += ["[<" + a["name"] + "1>]"] + a["desc"] + a["dflt"]
+                words += ["[<" + a["name"] + ">]", "[<" + a["name"] + "1>]", "[<" + a["name"] + "N>]"] + a["desc"] + a["dflt"]
             for o in x["opts"]:
-                words += ["[--" + o["long"] + "~[<...>]]"] + o["desc"] + o["dflt"]
+                words += ["[--" + o["long"] + "]", "[--" + o["long"] + "\u00a0[<...>]]"] + o["desc"] + o["dflt"]
     return any(len(w._split(x)) != 1 for x in words if x)
 
 
@@ -571,7 +571,7 @@ def run(ctx):
         "CommandHelp (plain and ANSI) and every help request run through ConsoleApplication.run in both forms, compared "
         "word by word and blank by blank; seeded random applications (up to 4 commands x 3 sub-commands, 3 arguments, 3 "
         "options, texts up to 40 words, the full default configuration, widths 40-200) are validated by HelpPageTrace.  "
-        "Non-trivial: a page on which some text had to be wrapped"
+        "Non-trivial: a rendered page of more than 12 lines"
     )
     ctx.assumptions += [
         "precondition: terminal width >= longest label (argument, option, command name, synopsis prefix) + 10 "
